@@ -1762,8 +1762,17 @@ func textRewrittenBy(w *World, v ssa.Value) string {
 			if !w.InPkg(cal) {
 				if cal.Object() != nil && cal.Object().Pkg() != nil {
 					switch cal.Object().Pkg().Path() {
-					case "strings", "bytes", "unicode", "golang.org/x/text/cases":
+					case "strings", "bytes", "unicode", "golang.org/x/text/cases", "mime", "net/url", "path", "path/filepath", "html", "net/textproto", "unicode/utf8", "golang.org/x/text/unicode/norm":
+						// accumulators hand back what was written into them: not a rewriting
+						if cal.Signature.Recv() != nil {
+							if n := namedOf(cal.Signature.Recv().Type()); n != nil && (n.Obj().Name() == "Builder" || n.Obj().Name() == "Buffer") {
+								return ""
+							}
+						}
 						for _, a := range x.Common().Args {
+							if _, isConst := a.(*ssa.Const); isConst {
+								continue
+							}
 							if isStringish(a.Type()) || isByteSlice(a.Type()) {
 								return extName(cal)
 							}
@@ -1801,4 +1810,50 @@ func textRewrittenBy(w *World, v ssa.Value) string {
 		return ""
 	}
 	return trace(v, 0)
+}
+
+// checkQuotedAsIs (W-asis): the text handed to the quoting helpers by the encoders is the value as it is — seen through
+// conversions and identity helpers — never the result of a function that rewrites text (a media type put through
+// mime.ParseMediaType/FormatMediaType "to normalise it", a lower-cased tag, a cleaned path): the document would then
+// carry a different value than the one stored, for the spellings the rewriting changes.
+func checkQuotedAsIs(w *World, c *Check, rule string) {
+	quoters := map[*ssa.Function]bool{}
+	for _, n := range []string{"jsonQuoted", "stringBytes"} {
+		if f := w.Func(n); f != nil {
+			quoters[f] = true
+		}
+	}
+	if len(quoters) == 0 {
+		c.bad(rule, "anchor", "-", "the quoting helpers jsonQuoted / stringBytes were not found")
+		return
+	}
+	n := 0
+	perFn := map[string]int{}
+	for _, f := range w.Funcs {
+		if quoters[f] {
+			continue
+		}
+		for _, call := range callsIn(f) {
+			if !quoters[call.Common().StaticCallee()] {
+				continue
+			}
+			for _, a := range call.Common().Args {
+				if !(isStringish(a.Type()) || isByteSlice(a.Type())) {
+					continue
+				}
+				if _, isConst := a.(*ssa.Const); isConst {
+					continue
+				}
+				n++
+				perFn[funcName(f)]++
+				key := fmt.Sprintf("%s#%d", funcName(f), perFn[funcName(f)])
+				if how := textRewrittenBy(w, a); how != "" {
+					c.bad(rule, key, w.InstrPos(call), fmt.Sprintf("%s quotes a text that has been through %s: the document carries a rewriting of the stored value, so the value that is read back differs from the one written for every spelling the rewriting changes", funcName(f), how))
+				} else {
+					c.ok(rule, key, w.InstrPos(call), "the text is quoted as it is")
+				}
+			}
+		}
+	}
+	c.stat(rule+"_quoted_texts", n)
 }
